@@ -760,7 +760,16 @@ def gen_failure(rng, fid, kind, c, behs, shspec=None):
         raise ValueError(kind)
 
 
-def gen_line(rng, kind, c, npos=None, shspec=None):
+# words that name no target, for TARGET positions.  ANYWHERE: also as the first word (neither program's flag parser takes
+# them); AFTER_FIRST: only after a first target word (as the first word "--" ends the flags and "-x" is a flag).
+# Invalid UTF-8 is written with surrogate escapes (os.fsencode turns them back into the bytes).
+UNKNOWN_ANYWHERE = ["nosuch", "t1x", "d1", "act", "bogus", "T1:T2", "", " ", "\t", "  ", " t1", "t1 ", "t1\n", "\nt1", "t1\t", "t\x011",
+                    "\x7f", "t1\x00x"[:2] + "\x1b[0m", "\udcff\udcfe", "t1\udcff", "n" * 300, "t1" + "x" * 298, "-", "t1:", ":t1", "a::b",
+                    "t1:t2:", ":", "T1 T2", "t1,t2", "*", "t1=1", "./t1", "t1.go", "\u00e9t\u00e9", "\u0131"]
+UNKNOWN_AFTER_FIRST = ["--", "-bogus", "-v", "-l", "-h", "--t1", "-t1", "-t", "--help", "-="]
+
+
+def gen_line(rng, kind, c, npos=None, shspec=None, word=None):
     """a 1-3 mention command line in which the mention at a random position fails in way `kind` (or none fails)"""
     n = rng.choice([1, 2, 2, 3, 3])
     ids = rng.sample(sorted(TOP), n)
@@ -775,7 +784,7 @@ def gen_line(rng, kind, c, npos=None, shspec=None):
         if i == pos:
             if kind == "unknown":
                 m = {"kind": "unknown", "id": None}
-                w = [rng.choice(["nosuch", "t1x", "d1", "act", "-bogus" if i > 0 else "bogus", "T1:T2"])]
+                w = [word if word is not None else rng.choice(UNKNOWN_ANYWHERE + (UNKNOWN_AFTER_FIRST if i > 0 else []))]
             elif kind == "missing":
                 # only meaningful at the end of the line: the following words would be taken as arguments
                 ids = ids[:i + 1]
@@ -848,6 +857,15 @@ def line_cases(ctx):
             for how in ("kill", "killonce"):
                 for kind in (how, "kill-dep"):
                     lines.append(gen_line(rng, kind, 0, shspec=(how, sig)))
+    # every word of the pool that names no target, at the first position and after targets that complete
+    for w in UNKNOWN_ANYWHERE + UNKNOWN_AFTER_FIRST:
+        for p in ((0, 1, 2) if w in UNKNOWN_ANYWHERE else (1, 2)):
+            for _ in range(30):
+                l = gen_line(rng, "unknown", 2, npos=p, word=w)
+                if l["pos"] == p:
+                    l["mage_share"] = 0.15          # mostly the binary and hash mode: the default mode costs a build
+                    lines.append(l)
+                    break
     # every position of a three-target line for a few kinds
     for kind in ("fatal", "error", "unknown", "deps-diff", "deps-sametext-diff", "sh", "sh-dep", "shsig", "shcopy", "plain-dep", "killonce", "kill-dep"):
         for p in range(3):
@@ -872,7 +890,7 @@ def line_to_cases(ctx, l, idx):
     killed = want[0] == "nonzero"
     routes = ["compiled", "hash"]
     mage_share = 0.12 if ctx.quick else 0.5
-    if rng.random() < (0.5 if l["fail"] in ("unknown", "missing", "badarg") else mage_share) or l.get("routes") == "all":
+    if rng.random() < l.get("mage_share", 0.5 if l["fail"] in ("unknown", "missing", "badarg") else mage_share) or l.get("routes") == "all":
         routes.append("mage")
     if killed:
         routes = ["mage", "hash"]       # a -compile'd binary killed by a signal has no exit status to look at
@@ -1035,6 +1053,11 @@ def table_cases(ctx):
         for c in ([3, 128] if ctx.quick else [1, 2, 3, 77, 127, 128, 200, 255]):
             add("default target mg.Fatal(%d)" % c, "def", route, [], c, scen(pr=prog(default=["fatal", c])), behs={"T1": ["fatal", c]}, tokens=["FAIL-T1"], want_ran=1)
         add("default target plain error", "def", route, [], 1, scen(pr=prog(default=["err"])), behs={"T1": ["error"]}, tokens=["FAIL-T1"], want_ran=1)
+        for w in ("", " ", "\t", "t1 ", " t1", "nosuch"):
+            add("default target and the word %r: the word decides, the default target does not run" % w, "def", route, [w], 2,
+                scen(fa=fargs(nargs=1), pr=prog(default=["ok"], mentions=[["unknown"]])), tokens=["Unknown target"])
+        add("default target, a target and an empty word", "def", route, ["t2", ""], 2,
+            scen(fa=fargs(nargs=2), pr=prog(default=["ok"], mentions=[T1, ["unknown"]])), tokens=["Unknown target"], want_ran=1)
         add("default target and a word", "def", route, ["t2"], 0, scen(fa=fargs(nargs=1), pr=prog(default=["ok"], mentions=[T1])), want_ran=1)
         add("default target needs arguments", "defargs", route, [], 2, scen(pr=prog(default="args")), tokens=["not enough arguments"])
         add("default target needs arguments, MAGEFILE_IGNOREDEFAULT", "defargs", route, [], 0, scen(pr=prog(default="args", ignore=True)), env={"MAGEFILE_IGNOREDEFAULT": "1"})
